@@ -137,16 +137,92 @@ def newslotclean(run, fx):
         else:
             run.violated('NEWSLOTCLEAN', inst, ns.loc(r), 'Segment::newSlot returns `%s` whose next link still points into the free list: the caller '
                          'links a slot whose next is garbage into the stream' % v)
-    ctor = [f for f in fx.fns_named('graphite2::Slot::Slot') if not f.f.get('implicit')]
+    slot_ctor_clean(run, fx, 'NEWSLOTCLEAN')
+
+
+def slot_ctor_clean(run, fx, rule):
+    """Segment::freeSlot recycles a slot by constructing a fresh Slot over it (placement new) and newSlot hands it out again: the
+    constructor is what guarantees that a recycled slot carries nothing of its previous life.  Every data member must be
+    initialised by the constructor; every pointer member to null (or to the constructor's own parameter)."""
+    ctor = [f for f in fx.fns_named('graphite2::Slot::Slot') if not f.f.get('implicit') and not f.f.get('copyctor')]
+    if len(ctor) != 1:
+        raise AnalysisBroken('expected one user-written Slot constructor, found %d' % len(ctor))
+    f = ctor[0]
+    rec = fx.record('graphite2::Slot')
     inits = {}
-    for f in ctor:
-        for _, e in f.elements():
-            if e['k'] == 'Init' and e.get('field') in ('graphite2::Slot::m_next', 'graphite2::Slot::m_prev'):
-                inits[e['field']] = f.strip_all_casts(e['init']).get('v') if e.get('init') is not None else None
-    if inits.get('graphite2::Slot::m_next') == 0 and inits.get('graphite2::Slot::m_prev') == 0:
-        run.held('NEWSLOTCLEAN', 'Slot constructor', ctor[0].where(), 'm_next(NULL), m_prev(NULL)', False)
+    for _, e in f.elements():
+        if e['k'] == 'Init' and e.get('field'):
+            inits[e['field'].split('::')[-1]] = e
+    # members assigned in the body count as initialised too
+    for _, e in f.elements():
+        if e['k'] == 'BinaryOperator' and e['op'] == '=':
+            l = f.strip(e['c'][0])
+            if l['k'] == 'MemberExpr' and l.get('dk') == 'Field' and f.render(f.N(l['c'][0])) == 'this':
+                inits.setdefault(l['d'].split('::')[-1], e)
+    pvids = {p_['vid'] for p_ in f.f.get('params') or []}
+    missing, notnull = [], []
+    for fld in rec['fields']:
+        n = fld['n']
+        if fld.get('static'):
+            continue
+        e = inits.get(n)
+        if e is None or (e['k'] == 'Init' and e.get('implicit') and e.get('init') is None and '*' in (fld.get('t') or '')):
+            missing.append(n)
+            continue
+        if '*' in (fld.get('t') or ''):
+            iv = f.strip_all_casts(f.N(e['init'])) if e['k'] == 'Init' and e.get('init') is not None else (f.strip_all_casts(e['c'][1]) if e['k'] == 'BinaryOperator' else None)
+            if iv is None:
+                missing.append(n)
+            elif not (iv.get('v') == 0 or iv['k'] in ('CXXNullPtrLiteralExpr', 'GNUNullExpr') or (iv['k'] == 'DeclRefExpr' and iv.get('vid') in pvids)):
+                notnull.append(n)
+    links = [n for n in ('m_next', 'm_prev', 'm_parent', 'm_child', 'm_sibling') if n in missing + notnull]
+    if not any(fl['n'] == 'm_next' for fl in rec['fields']):
+        raise AnalysisBroken('Slot::m_next vanished')
+    if missing or notnull:
+        run.violated(rule, 'Slot constructor', f.where(), 'Slot\'s constructor leaves member(s) %s uninitialised%s: Segment::freeSlot re-constructs a slot to wipe it, so a recycled '
+                     'slot keeps these from its previous life%s' % (missing, (' and sets pointer member(s) %s to something other than null' % notnull) if notnull else '',
+                                                                   (' -- stream / attachment links %s' % links) if links else ''))
     else:
-        run.violated('NEWSLOTCLEAN', 'Slot constructor', ctor[0].where() if ctor else '', 'Slot\'s constructor does not null m_next / m_prev: %s' % inits)
+        run.held(rule, 'Slot constructor', f.where(), 'all %d data members initialised; pointer members null or taken from the constructor parameter' % len(rec['fields']), False)
+
+
+def freedslot(run, fx, rule):
+    """no use after Segment::freeSlot(x): freeSlot unlinks the slot, re-constructs it and threads it on the free list, so its links no
+    longer describe the stream.  After each call freeSlot(x) with x a variable, no path reaches a dereference of x before x is
+    re-defined (comparing the pointer value is fine)."""
+    from .util import reaches_avoiding
+    n = 0
+    for fn, e in callers_of(fx, 'graphite2::Segment::freeSlot'):
+        a = fn.strip_all_casts(e['args'][0]) if e.get('args') else None
+        if a is None or a['k'] != 'DeclRefExpr' or a.get('vid') is None:
+            continue                      # freeSlot(newSlot()), freeSlot(expr): nothing to track
+        vid = a['vid']
+        n += 1
+        inst = 'no use of %s after freeSlot in %s' % (a['d'].split('::')[-1], fn.q)
+        redefs, uses = [], []
+        for _, u in fn.elements():
+            if u['k'] == 'BinaryOperator' and u['op'] == '=':
+                l = fn.strip(u['c'][0])
+                if l['k'] == 'DeclRefExpr' and l.get('vid') == vid:
+                    redefs.append(u)
+            elif u['k'] == 'DeclStmt' and any(d.get('vid') == vid for d in u['decls']):
+                redefs.append(u)
+            elif u['k'] == 'MemberExpr' and u.get('arrow') and u.get('c'):
+                b = fn.strip_all_casts(u['c'][0])
+                if b['k'] == 'DeclRefExpr' and b.get('vid') == vid:
+                    uses.append(u)
+            elif u['k'] == 'UnaryOperator' and u['op'] == '*':
+                b = fn.strip_all_casts(u['c'][0])
+                if b['k'] == 'DeclRefExpr' and b.get('vid') == vid:
+                    uses.append(u)
+        bad = [u for u in uses if reaches_avoiding(fn, e, u, avoid=redefs)]
+        if bad:
+            run.violated(rule, inst, fn.loc(bad[0]), '%s is dereferenced (%s) on a path after Segment::freeSlot(%s): the slot has been wiped and put on the free list, '
+                         'its links now lead into the pool' % (a['d'].split('::')[-1], fn.render(bad[0]), a['d'].split('::')[-1]))
+        else:
+            run.held(rule, inst, fn.loc(e), '%d dereferences of the variable in the function, none reachable after the call before a re-definition' % len(uses))
+    if n < 3:
+        run.broken(rule, 'freeSlot call sites', 'expected at least 3 freeSlot(variable) call sites, found %d' % n)
 
 
 def mutators(run, fx):
@@ -383,6 +459,7 @@ def run(run):
     fx = vm.fx
     linksym(run, vm)
     newslotclean(run, fx)
+    freedslot(run, fx, 'NEWSLOTCLEAN')
     mutators(run, fx)
     c02.growth(run, vm)
     index(run, fx)
